@@ -2,7 +2,7 @@
    Witnesses about the superseded definitions (flags fx = false, reset = false);
    each was replayed against the implementation before the repair
    (handoff/C09-fix-1.diff = reader, C09-fix-2.diff = dimension rule). *)
-From CfdmV Require Import Common.Base C09.Model C09.Lemmas.
+From CfdmV Require Import Common.Base C09.Model C09.Spec C09.Lemmas C09.Compose.
 Open Scope Z_scope.
 
 (* F09a: read_vars['vertical_crs'] was never cleared: reading [wA; wB], the
@@ -27,3 +27,29 @@ Theorem C09_old_dimension_collapse_refuted :
              (forall o, In o (snd (write_fields false (rev fs) st0)) -> NoDup (o_dims o)) /\
              (forall o, In o (snd (write_fields true fs st0)) -> NoDup (o_dims o)).
 Proof. exact old_dimension_collapse_refuted. Qed.
+
+(* Two equal dimension coordinates on two axes of one field: before /repo
+   commit a6b4a67 both axes were written on one netCDF dimension, even in a
+   file of its own; not with the current rule. *)
+Theorem C09_old_equal_dimcoords_collapse_refuted :
+  wfb wH = false /\
+  (exists o, In o (snd (write_fields false [wH] st0)) /\ ~ NoDup (o_dims o)) /\
+  (forall o, In o (snd (write_fields true [wH] st0)) -> NoDup (o_dims o)).
+Proof. exact old_equal_dimcoords_collapse_refuted. Qed.
+
+(* F09h/i/j (C09-fix3-1,2,3): before the repair an equal list / count / index
+   variable of an earlier field was reused whatever dimensions it referred to:
+   [gA; gB] (gathered, equal list values, compressed axes (2,3) and (3,2)) share
+   one list variable that keeps the first field's compress attribute, in either
+   order; [rA; rB] (ragged, equal counts / indices, different instance-level
+   coordinates) share the count / index variable of the first field's instance
+   dimension.  With the repaired rule each field's variable refers to its own
+   dimensions, and equal fields still share. *)
+Theorem C09_old_compression_variable_shared_refuted :
+  own_all false [gA; gB] = false /\ own_all false [gB; gA] = false /\
+  own_all false [rA (CCont 3); rB (CCont 3)] = false /\ own_all false [rA (CIdx 3); rB (CIdx 3)] = false /\
+  own_all true [gA; gB] = true /\ own_all true [gB; gA] = true /\
+  own_all true [rA (CCont 3); rB (CCont 3)] = true /\ own_all true [rA (CIdx 3); rB (CIdx 3)] = true /\
+  (let '(st, xs) := write_cfields true [gA; gA; rA (CCont 3); rA (CCont 3)] st0 in map snd xs) =
+  [Some 3%nat; Some 3%nat; Some 5%nat; Some 5%nat].
+Proof. exact old_compression_variable_shared_refuted. Qed.
